@@ -32,7 +32,9 @@ def matches(entry, viol):
     m = entry.get("match", {})
     for field, pat in m.items():
         v = viol.get(field)
-        if v is None or not re.search(pat, str(v)):
+        if v is not None and not isinstance(v, str):
+            v = json.dumps(v, default=str)
+        if v is None or not re.search(pat, v):
             return False
     return True
 
